@@ -203,10 +203,10 @@ class State:
         return r != z3.unsat
 
     def reachable(self):
-        """vacuity canary: is the current path condition satisfiable (full solver; unknown counts as reachable)"""
-        self.solver.set("timeout", 3000)
-        r = self.solver.check()
-        self.solver.set("timeout", self.timeout_ms)
+        """vacuity canary: the quantifier-free part of the path condition is satisfiable (unknown counts as reachable)"""
+        self.light.set("timeout", 1000)
+        r = self.light.check()
+        self.light.set("timeout", 500)
         return r != z3.unsat
 
     def branch(self, conds, label=""):
@@ -294,13 +294,21 @@ class State:
                 from .smt import candidate_model
                 r3s, m3 = candidate_model(self.pc, z3.Not(f), min(self.timeout_ms, 5000))
                 r3 = z3.sat if r3s == "sat" else (z3.unsat if r3s == "unsat" else z3.unknown)
-                if r3 == z3.sat:
+                if r3 == z3.sat and witness_fn is None:
+                    # a candidate exists (and no replayer could use it): the obligation is probably false, so a longer
+                    # run on the FULL VC is worth it
+                    fr = solve_fallback(self.pc + [z3.Not(f)], max(self.timeout_ms * 3, 30000))
+                    if fr.status == "sat":
+                        model, status, backend = (fr.model or m3), "failed", fr.backend + " (full VC)"
+                    elif fr.status == "unsat":
+                        model, status, backend = None, "discharged", fr.backend
+                if r3 == z3.sat and status is None:
                     model, cand, status = m3, True, "unknown"
                     backend = "z3-5.1(api,instantiated-candidate)"
                     detail = (detail + " candidate counter-model from finitely instantiated VC").strip()
                 elif r3 == z3.unsat:
                     status, backend = "discharged", "z3-5.1(api,finite instances of the quantified assumptions)"
-                else:
+                elif status is None:
                     fr = solve_fallback(self.pc + [z3.Not(f)], self.timeout_ms)
                     backend = fr.backend
                     status = {"unsat": "discharged", "sat": "failed", "unknown": "unknown"}[fr.status]
